@@ -43,7 +43,7 @@ func init() {
 	prop("C13", []string{"R26", "R6", "R25", "R30", "R34", "R1w", "R1r", "R69", "R93", "R98"},
 		"necessary conditions only: writer and reader use inverse conversions with lossless arguments for every type, NaN/null <-> empty cell (R26); rows and cells are emitted through the index (R6); Header/Columns are consulted (R25); write failures surface (R30).",
 		"agreement of encoding/csv's quoting with the custom scanner's unquoting for arbitrary bytes; round-trip equality is value level.")
-	prop("C14", []string{"R27", "R28", "R58", "R6", "R85"},
+	prop("C14", []string{"R27", "R28", "R58", "R6", "R85", "R100"},
 		"every string that reaches the output - cell values and column names - goes through the escaper (R27); the escaper leaves unescaped only bytes JSON allows unescaped and emits well-formed escapes for all 256 byte values (R28); numbers are written by AppendInt/AppendBool/AppendFloat64f, NaN and null as the constant null (R27); rows in index order (R6).",
 		"the punctuation skeleton as a grammar; ReadJSON inversion.")
 	prop("C15", []string{"R29", "R30", "R31", "R24", "R61", "R41", "R56"},
